@@ -72,11 +72,11 @@ def oracle_polys(key, forms, D, ops):
     raise KeyError(key)
 
 
-def _case(key, mkind, mode, D, R, dims, timeout=300, semi=()):
+def _case(key, mkind, mode, D, R, dims, timeout=300, semi=(), updated=False):
     """mkind: 'pdf' | 'measure'; mode: shared | percomp | mixed_mat_shared | mixed_vec_shared |
     default_mat | default_vec | default_all;  dims: dict K,L,M"""
     dd = "".join(f"{k}{v}" for k, v in sorted(dims.items()))
-    cid = f"C03/{key}/{mkind}/{mode}/D{D}R{R}{dd}" + ("/semi-" + "-".join(semi) if semi else "")
+    cid = f"C03/{key}/{mkind}/{mode}/D{D}R{R}{dd}" + ("/semi-" + "-".join(semi) if semi else "") + ("/after-update" if updated else "")
     cfg = dict(key=key, measure=mkind, coefficients=mode, D=D, R=R, concrete_blocks=list(semi), **dims)
     forms = AFF.get(key, [])
 
@@ -96,6 +96,8 @@ def _case(key, mkind, mode, D, R, dims, timeout=300, semi=()):
         return dims[letter] if has_mat(0) else D
 
     def declare(b):
+        if updated:
+            b.spd("S0", R, D); b.free("mu0", (R, D))      # the density before update(): every component is replaced
         if mkind == "pdf":
             (b.const("S", b.rat_spd(R, D)) if "S" in semi else b.spd("S", R, D)); b.free("mu", (R, D))
         else:
@@ -119,7 +121,12 @@ def _case(key, mkind, mode, D, R, dims, timeout=300, semi=()):
 
     def fn(**A):
         factor, measure, pdf, conditional = gt()
-        if mkind == "pdf":
+        if mkind == "pdf" and updated:
+            import jax.numpy as jnp
+            p = pdf.GaussianPDF(Sigma=A["S0"], mu=A["mu0"])
+            p.integrate("x")
+            p.update(jnp.arange(R), pdf.GaussianPDF(Sigma=A["S"], mu=A["mu"]))
+        elif mkind == "pdf":
             p = pdf.GaussianPDF(Sigma=A["S"], mu=A["mu"])
         else:
             p = measure.GaussianMeasure(Lambda=A["Lam"], nu=A["nu"], ln_beta=A["lb"])
@@ -239,6 +246,10 @@ def cases(tier, seed=0):
             dims = {l: {"K": 4, "L": 2, "M": 3}[l] for l in letters}
             out.append(_case(key, "pdf", "shared", 3, 1, dims, timeout=900))
             out.append(_case(key, "pdf", "percomp", 2, 3, {l: {"K": 3, "L": 1, "M": 2}[l] for l in letters}, timeout=900))
+    # integrals of a density that was updated in place beforehand (caches of the replaced components must not survive)
+    for key in ("1", "x", "xx'", "(Ax+a)'(Bx+b)", "(Ax+a)(Bx+b)'(Cx+c)"):
+        letters = sorted({f[2] for f in AFF.get(key, [])})
+        out.append(_case(key, "pdf", "shared", 2, 2, {l: {"K": 2, "L": 1, "M": 3}[l] for l in letters}, updated=True))
     # larger dimensions (the quantifier goes to D=6, K,L,M<=5): covariance bound to generic rationals, mean and every
     # coefficient vector symbolic, one coefficient matrix symbolic ("mats") or all of them (D=4)
     big = [(4, 1, {"K": 2, "L": 3, "M": 1}, ("S",)), (5, 1, {"K": 3, "L": 2, "M": 4}, ("S", "mats")), (6, 1, {"K": 5, "L": 4, "M": 3}, ("S", "mats"))]
